@@ -100,7 +100,10 @@ func genC12(t *rapid.T) (*C12Case, []string) {
 	c := &C12Case{Files: base.Files}
 	var labels []string
 
-	kind := rapid.SampledFrom([]string{"L", "L", "S", "K", "A", "R", "R", "M", "M", "U", "E"}).Draw(t, "faultkind")
+	kind := rapid.SampledFrom([]string{"L", "L", "S", "K", "A", "R", "R", "M", "M", "U", "E", "D"}).Draw(t, "faultkind")
+	if kind == "D" && rapid.IntRange(0, 7).Draw(t, "deepkept") != 0 {
+		kind = "R" // (a run into the depth limit costs about as much as a hundred other cases)
+	}
 	sub0, sub1 := -1, -1 // byte range of the fault inside a multi-line raw token
 	var toks []ast.Tok
 	var f0, f1 int // token index range of the fault
@@ -179,6 +182,41 @@ func genC12(t *rapid.T) (*C12Case, []string) {
 		c.Class, c.Fault = kit.class, "multi-line construct: "+kit.name
 		c.Exact = kit.exact
 		labels = append(labels, "fault-inside-multi-line-construct")
+	case "D":
+		// a recursion through match cases that runs into the depth limit: the error carries a
+		// position like any other, whichever frame (a call's or a case's) crosses the limit
+		rec := rapid.SampledFrom([]string{
+			"function c12rec ( n ) { return match ( n ) { k => c12rec ( [ k ] ) } }",
+			"function c12rec ( n ) { match ( n ) { k => { return c12rec ( k + 1 ) } } }",
+			"function c12rec ( n ) { return c12rec ( n + 1 ) }",
+		}).Draw(t, "recshape")
+		call := "c12x = c12rec ( 0 )"
+		var wrappers []string
+		for w, nw := 0, rapid.IntRange(0, 2).Draw(t, "wrappers"); w < nw; w++ {
+			inner := "c12rec ( 0 )"
+			if w > 0 {
+				inner = fmt.Sprintf("c12w%d ( )", w-1)
+			}
+			wrappers = append(wrappers, fmt.Sprintf("function c12w%d ( ) { return %s }", w, inner))
+			call = fmt.Sprintf("c12x = c12w%d ( )", w)
+		}
+		blk := leadRule.C[1]
+		var cands []int
+		for _, s := range blk.C {
+			cands = append(cands, r.First[s])
+		}
+		cands = append(cands, r.Last[blk])
+		at := cands[rapid.IntRange(0, len(cands)-1).Draw(t, "leadpos")]
+		toks = insertToks(r, at, raw(call), sep)
+		// the functions go in front of everything, the recursive one first
+		front := []ast.Tok{raw(rec), sep}
+		for _, w := range wrappers {
+			front = append(front, raw(w), sep)
+		}
+		toks = append(front, toks...)
+		f0, f1 = 0, 0
+		c.Class, c.Fault = "runtime", "depth limit reached inside "+rec
+		labels = append(labels, "fault-is-a-limit")
 	case "U":
 		// an unterminated string or regex literal as the last thing in the program
 		open := rapid.SampledFrom([]string{"\"abc", "'abc", "\"", "/abc", "'é→"}).Draw(t, "open")
@@ -362,7 +400,7 @@ func c12CLI(c *C12Case) string {
 
 func TestC12(t *testing.T) {
 	rec := start(t, "C12", "exploration",
-		"multi-line programs (1-60 lines: a leading BEGIN block with multi-byte strings and a Latin-1-letter identifier, then a program from the C07 / C08 / C19 generators) laid out with blank lines, comment lines and trailing comments (ASCII and non-ASCII), LF or CRLF endings, tabs; one single-line fault: L = illegal character (@ ^ ? \\ ` & | é → 日 and raw bytes 0x80-0xF7) at any token boundary; S = stray ) ] => : at a statement start; K = return / break / continue out of context; A = invalid assignment target; R = one of 23 runtime kits as its own statement in the leading BEGIN block (reached by construction); M = a construct spanning several lines (array / object literal, call arguments, block, match) with the fault (runtime or syntax) confined to one inner line; U = an unterminated string or regex as the last thing in the program; E = a program that ends too early (universal invariant only). The whole program is preceded by blank lines, indentation or a comment line and followed by trailing newlines, blanks or a comment without newline. The harness records the byte span of the inserted construct. Oracle: expected error class; Line == the fault's line; SrcLine == exactly that line of the program text (a CRLF line keeps its \\r); lineStart-relative span contains Col (equal to the character's offset for single-byte illegal characters); the same universal invariant (Line >= 1, SrcLine is line Line, 0 <= Col <= len(SrcLine)) on every error. CLI sample: stderr is exactly the three documented lines with the caret under column Col. Non-trivial: fault on line >= 2 preceded by a blank line, comment, CRLF or multi-byte text. distinct = distinct program text.")
+		"multi-line programs (1-60 lines: a leading BEGIN block with multi-byte strings and a Latin-1-letter identifier, then a program from the C07 / C08 / C19 generators) laid out with blank lines, comment lines and trailing comments (ASCII and non-ASCII), LF or CRLF endings, tabs; one single-line fault: L = illegal character (@ ^ ? \\ ` & | é → 日 and raw bytes 0x80-0xF7) at any token boundary; S = stray ) ] => : at a statement start; K = return / break / continue out of context; A = invalid assignment target; R = one of 23 runtime kits as its own statement in the leading BEGIN block (reached by construction); M = a construct spanning several lines (array / object literal, call arguments, block, match) with the fault (runtime or syntax) confined to one inner line; U = an unterminated string or regex as the last thing in the program; D = a recursion (plain, or through match cases) that runs into the depth limit, started from BEGIN directly or through one or two wrapper calls, the recursive function written on one line; E = a program that ends too early (universal invariant only). The whole program is preceded by blank lines, indentation or a comment line and followed by trailing newlines, blanks or a comment without newline. The harness records the byte span of the inserted construct. Oracle: expected error class; Line == the fault's line; SrcLine == exactly that line of the program text (a CRLF line keeps its \\r); lineStart-relative span contains Col (equal to the character's offset for single-byte illegal characters); the same universal invariant (Line >= 1, SrcLine is line Line, 0 <= Col <= len(SrcLine)) on every error. CLI sample: stderr is exactly the three documented lines with the caret under column Col. Non-trivial: fault on line >= 2 preceded by a blank line, comment, CRLF or multi-byte text. distinct = distinct program text.")
 	defer rec.Finish()
 	rec.Assume("the harness renderer's recorded token offsets are the byte span of the inserted construct")
 	replay := func(raw json.RawMessage) error {
